@@ -80,10 +80,22 @@ fn may_hang(case: &Sexp) -> bool {
   matches!(l[2].atom(), "flatten" | "finalize") && l[3].atom() == "threads"
 }
 
+/// Cases that repeat a real-thread race ROUNDS times legitimately run long (thorough tier, loaded machine): extra time per round.
+fn extra_ms(case: &Sexp) -> u64 {
+  let l = case.list();
+  match l[2].atom() {
+    "finalize_race" | "sched_race" | "unsub_race" => l.get(3).map(|r| r.usize() as u64).unwrap_or(0) * 60,
+    "handshake" => l.get(4).map(|r| r.usize() as u64).unwrap_or(0) * 200,
+    "conc" => 120_000,
+    _ => 0,
+  }
+}
+
 fn run_guarded(case: Sexp) -> String {
   if !may_hang(&case) {
     return run_protected(&case);
   }
+  let case_copy = case.clone();
   let (tx, rx) = std::sync::mpsc::channel();
   std::thread::spawn(move || {
     let r = run_protected(&case);
@@ -96,7 +108,7 @@ fn run_guarded(case: Sexp) -> String {
   if let Ok(r) = rx.recv_timeout(std::time::Duration::from_millis(400)) {
     return r;
   }
-  let extra = if CONFIRMED.load(Ordering::SeqCst) < 4 { 20_000 } else { 3_000 };
+  let extra = (if CONFIRMED.load(Ordering::SeqCst) < 4 { 20_000 } else { 3_000 }) + extra_ms(&case_copy);
   match rx.recv_timeout(std::time::Duration::from_millis(extra)) {
     Ok(r) => r,
     Err(_) => {
@@ -143,7 +155,7 @@ fn main() {
   let next = Arc::new(AtomicUsize::new(0));
   let results: Arc<Mutex<Vec<Option<String>>>> = Arc::new(Mutex::new(vec![None; lines.len()]));
   // per worker: the case it is running and since when
-  let running: Arc<Mutex<Vec<Option<(usize, Instant)>>>> = Arc::new(Mutex::new(vec![]));
+  let running: Arc<Mutex<Vec<Option<(usize, Instant, u64)>>>> = Arc::new(Mutex::new(vec![]));
   let spawn_worker = {
     let (lines, next, results, running) = (lines.clone(), next.clone(), results.clone(), running.clone());
     move || {
@@ -159,8 +171,9 @@ fn main() {
           running.lock().unwrap()[slot] = None;
           break;
         }
-        running.lock().unwrap()[slot] = Some((i, Instant::now()));
         let case = sexp::parse(&lines[i]);
+        // the watchdog of a guarded case gives up before the monitor does
+        running.lock().unwrap()[slot] = Some((i, Instant::now(), extra_ms(&case) + if may_hang(&case) { 25_000 } else { 0 }));
         let id = case.list()[1].atom().to_string();
         let t = run_guarded(case);
         let mut res = results.lock().unwrap();
@@ -187,10 +200,10 @@ fn main() {
     {
       let mut r = running.lock().unwrap();
       for slot in r.iter_mut() {
-        if let Some((i, since)) = *slot {
+        if let Some((i, since, allowance)) = *slot {
           // a loaded machine can starve a healthy case: long waits for the first suspects, short ones once hangs are confirmed
           let limit = if hangs < 4 { STALL } else { 5 };
-          if since.elapsed() > Duration::from_secs(limit) {
+          if since.elapsed() > Duration::from_secs(limit) + Duration::from_millis(allowance) {
             stalled.push(i);
             *slot = None;
           }
